@@ -1,21 +1,554 @@
-//! xmloracle: implementation-side oracles of the xmlfile kind (C02 C05 C06 C07 C12 C15).  They look only at the real
-//! crates' inputs and outputs, never at the Coq model.
+//! xmloracle: implementation-side oracles of the xmlfile kind (C02 C06 C07 C12 C15; the structural C05 clauses are
+//! checked by tools/props.py with an independent XML parser on the `.texts` file).  They look only at the real crates'
+//! inputs and outputs, never at the Coq model.  Line format: `<case> <Cxx> <key> <message>`; keys are stable words.
 use crate::rng::Rng;
+use crate::val::{self, RefCtx};
 use crate::xmlfile::*;
-use rbx_dom_weak::WeakDom;
+use rbx_dom_weak::{InstanceBuilder, WeakDom};
+use rbx_reflection::{PropertyKind, PropertySerialization};
 use rbx_types::*;
-use std::collections::{BTreeMap, HashMap};
+use rbx_xml::verif::{find_canonical_property_descriptor, find_serialized_property_descriptor};
+use std::collections::{BTreeMap, BTreeSet, HashMap};
 
-pub fn on_encode_failure(_id: &str, _f: &Forest, _msg: &str, _panic: bool, _out: &mut Vec<String>) {}
+fn bump(stats: &mut BTreeMap<String, u64>, k: &str) {
+    *stats.entry(k.to_string()).or_insert(0) += 1;
+}
 
-#[allow(clippy::too_many_arguments)]
-pub fn on_round_trip(_id: &str, _f: &Forest, _dom: &WeakDom, _map: &HashMap<u64, Ref>, _roots: &[Ref], _text: &[u8], _d: &Dec, _enc: &str, _dec: &str,
-    _stats: &mut BTreeMap<String, u64>, _out: &mut Vec<String>) {
+fn xml_legal(s: &str) -> bool {
+    s.chars().all(|c| matches!(c, '\u{9}' | '\u{a}' | '\u{d}' | '\u{20}'..='\u{d7ff}' | '\u{e000}'..='\u{fffd}' | '\u{10000}'..))
+}
+
+// ------------------------------------------------------------------------------------------ value helpers
+
+/// every NaN replaced by the canonical quiet NaN (NaNs are compared as a class)
+pub fn norm_nan(v: &Variant) -> Variant {
+    let f = |x: f32| if x.is_nan() { f32::NAN } else { x };
+    let d = |x: f64| if x.is_nan() { f64::NAN } else { x };
+    let v3 = |a: &Vector3| Vector3::new(f(a.x), f(a.y), f(a.z));
+    let v2 = |a: &Vector2| Vector2::new(f(a.x), f(a.y));
+    let cf = |c: &CFrame| CFrame::new(v3(&c.position), Matrix3::new(v3(&c.orientation.x), v3(&c.orientation.y), v3(&c.orientation.z)));
+    match v {
+        Variant::Float32(x) => Variant::Float32(f(*x)),
+        Variant::Float64(x) => Variant::Float64(d(*x)),
+        Variant::CFrame(c) => Variant::CFrame(cf(c)),
+        Variant::OptionalCFrame(Some(c)) => Variant::OptionalCFrame(Some(cf(c))),
+        Variant::Color3(c) => Variant::Color3(Color3::new(f(c.r), f(c.g), f(c.b))),
+        Variant::ColorSequence(s) => Variant::ColorSequence(ColorSequence {
+            keypoints: s.keypoints.iter().map(|k| ColorSequenceKeypoint::new(f(k.time), Color3::new(f(k.color.r), f(k.color.g), f(k.color.b)))).collect(),
+        }),
+        Variant::NumberSequence(s) => {
+            Variant::NumberSequence(NumberSequence { keypoints: s.keypoints.iter().map(|k| NumberSequenceKeypoint::new(f(k.time), f(k.value), f(k.envelope))).collect() })
+        }
+        Variant::NumberRange(r) => Variant::NumberRange(NumberRange::new(f(r.min), f(r.max))),
+        Variant::PhysicalProperties(PhysicalProperties::Custom(p)) => Variant::PhysicalProperties(PhysicalProperties::Custom(CustomPhysicalProperties {
+            density: f(p.density),
+            friction: f(p.friction),
+            elasticity: f(p.elasticity),
+            friction_weight: f(p.friction_weight),
+            elasticity_weight: f(p.elasticity_weight),
+        })),
+        Variant::Ray(r) => Variant::Ray(Ray::new(v3(&r.origin), v3(&r.direction))),
+        Variant::Rect(r) => Variant::Rect(Rect::new(v2(&r.min), v2(&r.max))),
+        Variant::UDim(u) => Variant::UDim(UDim::new(f(u.scale), u.offset)),
+        Variant::UDim2(u) => Variant::UDim2(UDim2::new(UDim::new(f(u.x.scale), u.x.offset), UDim::new(f(u.y.scale), u.y.offset))),
+        Variant::Vector2(a) => Variant::Vector2(v2(a)),
+        Variant::Vector3(a) => Variant::Vector3(v3(a)),
+        other => other.clone(),
+    }
+}
+
+fn show(v: &Variant, labels: &HashMap<Ref, u64>) -> String {
+    let mut ctx = RefCtx::new();
+    for (r, l) in labels {
+        ctx.bind(*l, *r);
+    }
+    let v2 = match v {
+        Variant::Ref(r) if r.is_some() && !labels.contains_key(r) => Variant::Ref(Ref::none()),
+        other => other.clone(),
+    };
+    let s = val::value_string(&norm_nan(&v2), &mut ctx);
+    if s.len() > 160 {
+        let cut = (0..=160).rev().find(|i| s.is_char_boundary(*i)).unwrap_or(0);
+        format!("{}...({} chars)", &s[..cut], s.len())
+    } else {
+        s
+    }
+}
+
+fn has_short_sequence(v: &Variant) -> bool {
+    match v {
+        Variant::ColorSequence(s) => s.keypoints.len() < 2,
+        Variant::NumberSequence(s) => s.keypoints.len() < 2,
+        _ => false,
+    }
+}
+
+fn strings_legal(v: &Variant) -> bool {
+    match v {
+        Variant::String(s) => xml_legal(s),
+        Variant::ContentId(c) => xml_legal(c.as_str()),
+        Variant::Content(c) => match c.value() {
+            ContentType::Uri(u) => xml_legal(u),
+            _ => true,
+        },
+        Variant::Font(f) => xml_legal(&f.family) && f.cached_face_id.as_ref().map(|c| xml_legal(c)).unwrap_or(true),
+        _ => true,
+    }
+}
+
+/// types the README marks as implemented for rbx_xml (plus Tags/Attributes/MaterialColors, named by the property text)
+fn type_in_scope(v: &Variant) -> bool {
+    match v {
+        Variant::Region3(_) | Variant::Region3int16(_) | Variant::EnumItem(_) => false,
+        Variant::Attributes(a) => {
+            let mut buf = Vec::new();
+            a.to_writer(&mut buf).is_ok()
+        }
+        _ => true,
+    }
+}
+
+fn unknown_norm(v: &Variant) -> Variant {
+    match v {
+        Variant::BrickColor(b) => Variant::Int32(*b as u16 as i32),
+        Variant::Tags(t) => Variant::BinaryString(t.encode().into()),
+        Variant::Attributes(a) => {
+            let mut buf = Vec::new();
+            let _ = a.to_writer(&mut buf);
+            Variant::BinaryString(buf.into())
+        }
+        Variant::MaterialColors(m) => Variant::BinaryString(m.encode().into()),
+        other => other.clone(),
+    }
+}
+
+// ------------------------------------------------------------------------------------------ C02
+
+/// pre-order list of the written instances (labels), or None if the root selection is outside the quantifier
+fn written_order(f: &Forest) -> Option<Vec<u64>> {
+    let labels: BTreeSet<u64> = f.nodes.iter().map(|n| n.label).collect();
+    let parent: HashMap<u64, u64> = f.nodes.iter().map(|n| (n.label, n.parent)).collect();
+    let mut seen = BTreeSet::new();
+    for r in &f.roots {
+        if !labels.contains(r) || !seen.insert(*r) {
+            return None;
+        }
+    }
+    for r in &f.roots {
+        let mut p = parent[r];
+        while p != 0 {
+            if seen.contains(&p) {
+                return None; // a root below another root
+            }
+            p = parent[&p];
+        }
+    }
+    let mut order = Vec::new();
+    fn walk(f: &Forest, l: u64, out: &mut Vec<u64>) {
+        out.push(l);
+        for n in f.nodes.iter().filter(|n| n.parent == l) {
+            walk(f, n.label, out);
+        }
+    }
+    for r in &f.roots {
+        walk(f, *r, &mut order);
+    }
+    Some(order)
+}
+
+pub fn decoded_order(dom: &WeakDom) -> Vec<Ref> {
+    let mut order = Vec::new();
+    let mut stack: Vec<Ref> = dom.root().children().iter().rev().copied().collect();
+    while let Some(r) = stack.pop() {
+        order.push(r);
+        for c in dom.get_by_ref(r).unwrap().children().iter().rev() {
+            stack.push(*c);
+        }
+    }
+    order
+}
+
+pub fn on_encode_failure(id: &str, f: &Forest, msg: &str, panic: bool, out: &mut Vec<String>) {
+    let enc = f.opt("enc").unwrap_or("IgnoreUnknown");
+    let dec = f.opt("dec").unwrap_or("IgnoreUnknown");
+    if !retained(enc, dec) || scope_reason(f).is_some() {
+        return;
+    }
+    if !panic && encode_error_class(msg) == "convert" && enc != "NoReflection" && has_type_mismatch(f) {
+        return;
+    }
+    let has_object = f.nodes.iter().any(|n| n.props.iter().any(|(_, v)| matches!(v, Variant::Content(c) if matches!(c.value(), ContentType::Object(_)))));
+    let key = if panic && has_object { "content-object" } else if panic { "enc-panic" } else { "enc-fail" };
+    let m: String = msg.chars().take(200).collect();
+    out.push(format!("{id} C02 {key} writing a DOM inside the quantifier failed: {m}"));
+    out.push(format!("{id} C05 {key} the serializer produced no document for a DOM inside the quantifier: {m}"));
+}
+
+fn retained(enc: &str, dec: &str) -> bool {
+    matches!((enc, dec), ("IgnoreUnknown", "IgnoreUnknown") | ("WriteUnknown", "ReadUnknown") | ("NoReflection", "NoReflection"))
+}
+
+/// a database-known property carries a value that is not of the type it is serialized with (the property text
+/// quantifies over values of the declared type; Color3 in a byte-colour property is the listed exception)
+fn has_type_mismatch(f: &Forest) -> bool {
+    f.nodes.iter().any(|n| {
+        n.props.iter().any(|(k, v)| match find_serialized_property_descriptor(&n.class, k, db()) {
+            Some(ser) => {
+                let t = data_type_vt(&ser.data_type);
+                v.ty() != t && !(v.ty() == VariantType::Color3 && t == VariantType::Color3uint8)
+            }
+            None => false,
+        })
+    })
+}
+
+fn tags_lossy(v: &Variant) -> bool {
+    matches!(v, Variant::Tags(t) if t.iter().any(|s| s.is_empty() || s.contains('\0')))
+}
+
+/// why the DOM is outside the quantifier of C02 (None = inside)
+fn scope_reason(f: &Forest) -> Option<&'static str> {
+    let order = match written_order(f) {
+        Some(o) => o,
+        None => return Some("roots"),
+    };
+    let set: BTreeSet<u64> = order.iter().copied().collect();
+    for n in f.nodes.iter().filter(|n| set.contains(&n.label)) {
+        if !xml_legal(&n.name) || !xml_legal(&n.class) {
+            return Some("illegal-char");
+        }
+        for (k, v) in &n.props {
+            if k == "Name" {
+                return Some("name-prop"); // a property map entry that collides with the instance name
+            }
+            if !xml_legal(k) || !strings_legal(v) {
+                return Some("illegal-char");
+            }
+            if has_short_sequence(v) {
+                return Some("short-sequence");
+            }
+            if !type_in_scope(v) {
+                return Some("type");
+            }
+        }
+    }
+    None
 }
 
 #[allow(clippy::too_many_arguments)]
-pub fn on_text(_id: &str, _lines: &[String], _opts: &[(String, String)], _text: &[u8], _d: &Dec, _dec: &str, _stats: &mut BTreeMap<String, u64>, _out: &mut Vec<String>) {}
+pub fn on_round_trip(id: &str, f: &Forest, dom: &WeakDom, map: &HashMap<u64, Ref>, roots: &[Ref], text: &[u8], d: &Dec, enc: &str, dec: &str,
+    stats: &mut BTreeMap<String, u64>, out: &mut Vec<String>) {
+    // ---- C12: every DOM the reader returns
+    if let Dec::Ok(dd) = d {
+        c12_check(id, dd, text, dec, out);
+    }
+    if !retained(enc, dec) {
+        return;
+    }
+    if let Some(r) = scope_reason(f) {
+        bump(stats, &format!("c02_skipped_{r}"));
+        return;
+    }
+    bump(stats, "c02_checked");
+    let order = written_order(f).unwrap();
+    let dd = match d {
+        Dec::Ok(dd) => dd,
+        Dec::Err(m) => {
+            let neg = f.nodes.iter().any(|n| n.props.iter().any(|(_, v)| matches!(v, Variant::UniqueId(u) if u.random() < 0)));
+            let class = decode_error_class(m);
+            if class == "convert" && enc != "NoReflection" && has_type_mismatch(f) {
+                return;
+            }
+            let key = if neg && class == "type" {
+                "uniqueid-negative"
+            } else if class == "migration" {
+                "unmigratable"
+            } else {
+                "dec-fail"
+            };
+            let m: String = m.chars().take(200).collect();
+            out.push(format!("{id} C02 {key} reading back the written document failed: {m}"));
+            return;
+        }
+        Dec::Panic(m) => {
+            out.push(format!("{id} C02 dec-panic reading back the written document panicked: {m}"));
+            return;
+        }
+    };
+    c02_compare(id, f, &order, dd, enc, out);
+    if enc == "IgnoreUnknown" {
+        c07_check(id, f, dom, map, roots, text, dd, stats, out);
+        crate::xmlbin::c06_check(id, f, dom, roots, dd, stats, out);
+    }
+}
 
-pub fn migration_cases(_rng: &mut Rng, _n: u64) -> Vec<Vec<String>> {
-    Vec::new()
+/// what a decoded instance is expected to look like: `props[name] = None` means "do not check this name"
+pub struct ExpNode {
+    pub parent: u64, // pre-order index + 1 of the parent, 0 = root level
+    pub class: String,
+    pub name: Option<String>,
+    pub name_key: &'static str,
+    pub props: BTreeMap<String, Option<Variant>>, // Ref values: Ref of the decoded instance (already translated)
+}
+
+/// compares a decoded DOM with the expectation; lines are `<id> <pid> <key> <message>`
+pub fn cmp_dom(id: &str, pid: &str, exp: &[ExpNode], dd: &WeakDom, dorder: &[Ref], out: &mut Vec<String>) {
+    let dlabels: HashMap<Ref, u64> = dorder.iter().enumerate().map(|(i, r)| (*r, i as u64 + 1)).collect();
+    for (i, n) in exp.iter().enumerate() {
+        let di = dd.get_by_ref(dorder[i]).unwrap();
+        let got_parent = dlabels.get(&di.parent()).copied().unwrap_or(0);
+        if n.parent != got_parent {
+            out.push(format!("{id} {pid} tree instance #{} has parent #{got_parent}, expected #{}", i + 1, n.parent));
+            return;
+        }
+        if di.class.as_str() != n.class {
+            out.push(format!("{id} {pid} tree instance #{} has class {:?}, expected {:?}", i + 1, di.class.as_str(), n.class));
+            return;
+        }
+        if let Some(name) = &n.name {
+            if &di.name != name {
+                out.push(format!("{id} {pid} {} instance #{} of class {:?} is named {:?}, expected {:?}", n.name_key, i + 1, n.class, di.name, name));
+            }
+        }
+        for (name, e) in &n.props {
+            let got = di.properties.get(&name.as_str().into());
+            match (e, got) {
+                (None, _) => {}
+                (Some(e), None) => out.push(format!("{id} {pid} prop-missing {}.{name} = {} is absent from the decoded DOM", n.class, show(e, &dlabels))),
+                (Some(e), Some(g)) => {
+                    let (a, b) = (show(e, &dlabels), show(g, &dlabels));
+                    if a != b {
+                        let key = if tags_lossy(e) { "tags-empty-or-nul" } else { "prop-value" };
+                        out.push(format!("{id} {pid} {key} {}.{name} should be {a}, decoded as {b}", n.class));
+                    }
+                }
+            }
+        }
+        for (k, g) in di.properties.iter() {
+            if !n.props.contains_key(k.as_str()) {
+                let unknown = find_canonical_property_descriptor(&n.class, k.as_str(), db()).is_none();
+                let key = if unknown && matches!(g, Variant::Ref(_) | Variant::SharedString(_)) { "ignored-prop-resurrected" } else { "prop-extra" };
+                out.push(format!("{id} {pid} {key} {}.{} = {} appears in the decoded DOM", n.class, k.as_str(), show(g, &dlabels)));
+            }
+        }
+    }
+}
+
+fn c02_compare(id: &str, f: &Forest, order: &[u64], dd: &WeakDom, enc: &str, out: &mut Vec<String>) {
+    let dorder = decoded_order(dd);
+    if dorder.len() != order.len() {
+        out.push(format!("{id} C02 tree {} instances written, {} read back", order.len(), dorder.len()));
+        return;
+    }
+    let node: HashMap<u64, &Node> = f.nodes.iter().map(|n| (n.label, n)).collect();
+    let pos: HashMap<u64, usize> = order.iter().enumerate().map(|(i, l)| (*l, i)).collect();
+    let roots: BTreeSet<u64> = f.roots.iter().copied().collect();
+    let reflect = enc != "NoReflection";
+    let write_unknown = enc != "IgnoreUnknown";
+    let mut exp_nodes = Vec::new();
+    for l in order.iter() {
+        let n = node[l];
+        let has_name_prop = n.props.iter().any(|(k, _)| k == "Name");
+        let class_known = find_canonical_property_descriptor(&n.class, "Name", db()).is_some();
+        let mut expected: BTreeMap<String, Option<Variant>> = BTreeMap::new(); // None = do not check this name
+        let mut clash: BTreeSet<String> = BTreeSet::new();
+        let mut put = |expected: &mut BTreeMap<String, Option<Variant>>, name: String, v: Option<Variant>| {
+            if expected.contains_key(&name) {
+                clash.insert(name);
+            } else {
+                expected.insert(name, v);
+            }
+        };
+        for (k, v) in &n.props {
+            if k == "Name" {
+                put(&mut expected, "Name".into(), None);
+                continue;
+            }
+            let vref = match v {
+                Variant::Ref(r) => {
+                    let target = (1..=(f.nodes.len() as u64 + 64)).find(|x| val::synthetic_ref(*x) == *r);
+                    match target.and_then(|t| pos.get(&t)) {
+                        Some(p) => Variant::Ref(dorder[*p]),
+                        None => Variant::Ref(Ref::none()),
+                    }
+                }
+                other => other.clone(),
+            };
+            let descs = if reflect {
+                find_serialized_property_descriptor(&n.class, k, db()).map(|s| (find_canonical_property_descriptor(&n.class, k, db()).unwrap(), s))
+            } else {
+                None
+            };
+            match descs {
+                None => {
+                    if write_unknown {
+                        put(&mut expected, k.clone(), Some(unknown_norm(&vref)));
+                    }
+                }
+                Some((_canon, ser)) => {
+                    if let PropertyKind::Canonical { serialization: PropertySerialization::Migrate(m) } = &ser.kind {
+                        put(&mut expected, ser.name.to_string(), None);
+                        put(&mut expected, m.new_property_name.clone(), None);
+                        continue;
+                    }
+                    let ser_ty = data_type_vt(&ser.data_type);
+                    let back = find_canonical_property_descriptor(&n.class, &ser.name, db());
+                    let back = match back {
+                        Some(b) => b,
+                        None => {
+                            out.push(format!("{id} C02 prop-missing {}.{k} is written under the name {:?} which the reader does not know", n.class, ser.name));
+                            continue;
+                        }
+                    };
+                    let back_ty = data_type_vt(&back.data_type);
+                    if is_migrate(back) {
+                        put(&mut expected, back.name.to_string(), None);
+                        continue;
+                    }
+                    let exp = if vref.ty() == ser_ty {
+                        if ser_ty == back_ty || !converts(ser_ty, back_ty) { Some(vref.clone()) } else { None }
+                    } else if let (Variant::Color3(c), VariantType::Color3uint8) = (&vref, ser_ty) {
+                        Some(Variant::Color3uint8(Color3uint8::from(*c)))
+                    } else {
+                        None
+                    };
+                    put(&mut expected, back.name.to_string(), exp);
+                }
+            }
+        }
+        for c in &clash {
+            expected.insert(c.clone(), None);
+        }
+        exp_nodes.push(ExpNode {
+            parent: if roots.contains(l) { 0 } else { pos[&n.parent] as u64 + 1 },
+            class: n.class.clone(),
+            name: if has_name_prop { None } else { Some(n.name.clone()) },
+            name_key: if reflect && !write_unknown && !class_known { "name-lost-unknown-class" } else { "name" },
+            props: expected,
+        });
+    }
+    cmp_dom(id, "C02", &exp_nodes, dd, &dorder, out);
+}
+
+/// conversion.rs has an arm from `from` to `to`
+fn converts(from: VariantType, to: VariantType) -> bool {
+    matches!(
+        (from, to),
+        (VariantType::Int32, VariantType::Int64)
+            | (VariantType::Float32, VariantType::Float64)
+            | (VariantType::Int32, VariantType::BrickColor)
+            | (VariantType::Color3, VariantType::Color3uint8)
+            | (VariantType::BinaryString, VariantType::Tags)
+            | (VariantType::BinaryString, VariantType::Attributes)
+            | (VariantType::BinaryString, VariantType::MaterialColors)
+            | (VariantType::EnumItem, VariantType::Enum)
+            | (VariantType::Content, VariantType::ContentId)
+    )
+}
+
+// ------------------------------------------------------------------------------------------ C12
+
+pub fn c12_check(id: &str, dd: &WeakDom, text: &[u8], dec: &str, out: &mut Vec<String>) {
+    let mut seen: HashMap<UniqueId, Ref> = HashMap::new();
+    let mut first: Option<UniqueId> = None;
+    for r in decoded_order(dd) {
+        if let Some(Variant::UniqueId(u)) = dd.get_by_ref(r).unwrap().properties.get(&"UniqueId".into()) {
+            first.get_or_insert(*u);
+            if seen.insert(*u, r).is_some() {
+                out.push(format!("{id} C12 dup-uniqueid two instances of the DOM returned by rbx_xml::from_reader hold UniqueId {u}"));
+                return;
+            }
+        }
+    }
+    // the bookkeeping of the returned DOM must know the ids its instances hold: inserting a further instance that
+    // carries one of them has to regenerate it (probe on a second decode of the same text, which we may mutate)
+    if let Some(u) = first {
+        if let Dec::Ok(mut copy) = decode(text, dec_behavior(dec)) {
+            let root = copy.root_ref();
+            let r = copy.insert(root, InstanceBuilder::new("Folder").with_property("UniqueId", Variant::UniqueId(u)));
+            if copy.get_unique_id(r) == Some(u) {
+                out.push(format!("{id} C12 dup-uniqueid an instance inserted into the DOM returned by rbx_xml::from_reader kept UniqueId {u} although a decoded instance holds it"));
+            }
+        }
+    }
+}
+
+// ------------------------------------------------------------------------------------------ C07 (XML part)
+
+#[allow(clippy::too_many_arguments)]
+fn c07_check(id: &str, f: &Forest, _dom: &WeakDom, _map: &HashMap<u64, Ref>, _roots: &[Ref], text: &[u8], dd: &WeakDom, stats: &mut BTreeMap<String, u64>, out: &mut Vec<String>) {
+    bump(stats, "c07_checked");
+    // the same logical tree built again: other Ref values, other property insertion order
+    let mut rng = Rng::new(text.len() as u64 ^ 0x5eed);
+    for round in 0..2 {
+        let (dom2, map2) = build_dom(f, Some(&mut rng));
+        let roots2: Vec<Ref> = f.roots.iter().map(|l| map2[l]).collect();
+        match encode(&dom2, &roots2, enc_behavior("IgnoreUnknown")) {
+            Enc::Ok(t2) if t2 == text => {}
+            Enc::Ok(_) => {
+                out.push(format!("{id} C07 xml-nondeterministic rebuilding the same tree (round {round}) gave different XML text"));
+                return;
+            }
+            _ => {
+                out.push(format!("{id} C07 xml-nondeterministic rebuilding the same tree (round {round}) failed to serialize"));
+                return;
+            }
+        }
+    }
+    // load/save is a fixed point after the first save
+    let kids: Vec<Ref> = dd.root().children().to_vec();
+    let t2 = match encode(dd, &kids, enc_behavior("IgnoreUnknown")) {
+        Enc::Ok(t) => t,
+        Enc::Err(m) => {
+            out.push(format!("{id} C07 xml-resave saving the DOM that was just loaded failed: {}", m.chars().take(160).collect::<String>()));
+            return;
+        }
+        Enc::Panic(m) => {
+            out.push(format!("{id} C07 xml-resave saving the DOM that was just loaded panicked: {}", m.chars().take(160).collect::<String>()));
+            return;
+        }
+    };
+    let d3 = match decode(&t2, dec_behavior("IgnoreUnknown")) {
+        Dec::Ok(d) => d,
+        _ => {
+            out.push(format!("{id} C07 xml-resave the re-saved document does not load"));
+            return;
+        }
+    };
+    let kids3: Vec<Ref> = d3.root().children().to_vec();
+    match encode(&d3, &kids3, enc_behavior("IgnoreUnknown")) {
+        Enc::Ok(t3) if t3 == t2 => {}
+        Enc::Ok(t3) => {
+            let a = String::from_utf8_lossy(&t2).to_string();
+            let b = String::from_utf8_lossy(&t3).to_string();
+            let line = a.lines().zip(b.lines()).position(|(x, y)| x != y).unwrap_or(0);
+            out.push(format!(
+                "{id} C07 xml-resave-not-fixed-point save/load/save differs from the first re-save at line {}: {:?} vs {:?}",
+                line + 1,
+                a.lines().nth(line).unwrap_or("").chars().take(80).collect::<String>(),
+                b.lines().nth(line).unwrap_or("").chars().take(80).collect::<String>()
+            ));
+        }
+        _ => out.push(format!("{id} C07 xml-resave the third save failed")),
+    }
+}
+
+// ------------------------------------------------------------------------------------------ text cases
+
+#[allow(clippy::too_many_arguments)]
+pub fn on_text(id: &str, lines: &[String], opts: &[(String, String)], text: &[u8], d: &Dec, dec: &str, stats: &mut BTreeMap<String, u64>, out: &mut Vec<String>) {
+    if let Dec::Ok(dd) = d {
+        c12_check(id, dd, text, dec, out);
+    }
+    let stream = opts.iter().find(|(k, _)| k == "stream").map(|(_, v)| v.as_str()).unwrap_or("");
+    if stream == "foreign" {
+        crate::xmlspecgen::check_foreign(id, lines, d, dec, stats, out);
+    }
+    if stream == "mig" {
+        crate::xmlmig::check_read_path(id, lines, opts, d, stats, out);
+    }
+}
+
+pub fn migration_cases(rng: &mut Rng, n: u64) -> Vec<Vec<String>> {
+    crate::xmlmig::cases(rng, n)
 }
